@@ -121,6 +121,11 @@ func (d *chunkedIntDecoder) isNil() bool {
 }
 
 func (d *chunkedIntDecoder) readUvarint() (uint64, error) {
+	if d.r == nil || d.r.Len() == 0 {
+		// nothing to read: the chunk could not be loaded (failed storage
+		// read); a reused decoder then holds an empty reader, a new one none
+		return 0, fmt.Errorf("chunk not loaded")
+	}
 	return d.r.ReadUvarint()
 }
 
